@@ -127,3 +127,16 @@ Definition parse_bad_p (cs : list (list int * option (list (list (list int * lis
                                 | _, _ => false
                                 end in
                       if ok then [] else [(i, 1)]) (index_from 0 cs).
+
+(* packed variant of Corr/C09.cat_run_bad: a journal given by (receive time, MESSAGE value | none) *)
+Definition mk_cat_journal_p (es : list (Z * option (list int))) : journal :=
+  map (fun tm => mkEntry (fst tm) [] None
+                   (match snd tm with
+                    | Some m => [(s2b "PRIORITY", [54]); (k_message, unpack m)]
+                    | None => [(s2b "PRIORITY", [54]); (s2b "MESSAGX", [120])]
+                    end)) es.
+Definition cat_run_bad_p (es : list (Z * option (list int))) (cs : list (option Z * option Z * list int)) : list (N * N) :=
+  let j := mk_cat_journal_p es in
+  flat_map (fun ic => let '(i, (A, B, impl)) := ic in
+                      if beqb (journal_stdout ref_seek_head ref_seek_realtime stop_after RCat A B j) (unpack impl)
+                      then [] else [(i, 1)]) (index_from 0 cs).
